@@ -105,6 +105,8 @@ impl Segment {
             self.partition_id
         );
 
+        #[cfg(feature = "iggy_verif")]
+        crate::verif::chaos_point("segment.persist_messages").await;
         let batch = batch_accumulator.materialize_batch_and_update_state();
         let batch_size = batch.get_size_bytes();
         if batch_size > 0 {
